@@ -12,5 +12,5 @@ Extraction "wtmodel.ml"
   parse_duration duration_string parse_timestamp timestamp_string parse_archive_info
   parse_archive_info_list archive_list_string method_of_string method_string flag_method
   fl_flag_xff fl_sub
-  copy_one diff_one sum_item sum_copy_item sum_diff_item run_diffs view_cmd view_raw_cmd generate_cmd
+  copy_one diff_one sum_item sum_copy_item sum_diff_item run_diffs view_cmd view_raw_cmd generate_cmd read_file
   flocq_fops.
